@@ -308,6 +308,8 @@ class StoreClient(Entity):
             elif op == "put_sync":
                 val = f"c{c}o{i}"
                 rec = h.begin(c, i, "put", now, key=step[2], val=val, sync=True)
+                if self.ledger:
+                    self.ledger(rec)
                 st.put_sync(step[2], val)
                 h.end(rec, self.now.nanoseconds)
             elif op == "get_sync":
